@@ -7,13 +7,19 @@ machine (Model/DType.lean): after every operation the declared dtype, the dtype 
 the dtype of payoff / features / hedge / P&L are compared.  CPU only.
 predicate-only scenarios (not part of the model): casts to complex dtypes in every to() form and in the constructor
 (TypeError, state unchanged); a LISTED derivative on the instrument whose price / Spot feature / hedge P&L are read after
-every operation (so before and after each cast); Hedger.compute_loss / price with n_times in {1,2,3} at the end of a history.
+every operation (so before and after each cast); Hedger.compute_loss / price with n_times in {1,2,3} at the end of a history; ONE Hedger
+object (parameter-free: Whalley-Wilmott, Naked / a parameter-free module on prev_hedge, with one and two hedging instruments, Black-Scholes)
+used again and again while its instruments are cast and re-simulated with the same number of paths (exhaustive over {no cast, float32,
+float64} to depth 2 / 3, random histories incl. half precisions and ambient changes): hedge, hedger inputs, portfolio, P&L, loss and price
+follow the instruments.
 correspondence with the SYSTEM model (Model/InstrSys.lean, op "instr_sys"): (a) all the sequences above, re-read as histories of a
 system (one primary, the derivative on it, the listed option when there is one) with the result queries the predicate part computes;
 (b) exhaustive sequences (depth 3 over 10 letters; thorough: also depth 4 over 7 letters) of derivative-level operations on a Heston stock with two derivatives of
 different maturities (casts through either, simulation through either with different path counts, list / delist, register_buffer,
 cast to the sibling, ambient default); (c) random systems (1-3 primaries of all 8 classes, 1-3 derivatives of 4 classes sharing
-underliers) with random histories and queries.  After every operation: declared dtype, every buffer's dtype / shape, tensor identity
+underliers) with random histories and queries.  In half of the random systems and in an exhaustive family the real side keeps one Hedger
+object per hedger configuration alive over the whole history (scen["reuse_hedgers"]; the model's answers depend on the instruments only).
+After every operation: declared dtype, every buffer's dtype / shape, tensor identity
 against the model's generation numbers, the record of the last simulate; every query: dtype, shape or error kind, exactly.
 """
 import itertools
@@ -246,6 +252,124 @@ def run_case(torch, I, ctx, prim, init, ambient, ops, use_deriv, listed=False, n
 
 
 # ==================================================================================================
+# ONE hedger object kept alive while its instruments go through casts and re-simulations (a fitted hedger evaluated in another
+# precision).  The hedgers are parameter-free (nobody has a reason to cast the hedger itself) and most of them are state-dependent
+# (prev_hedge reads the hedger's `prev_output`): whatever a hedger carries over from its previous use must not leak into the dtype of
+# hedge / hedger inputs / portfolio / P&L / loss / price, which are the instruments'.
+
+REUSE_HEDGERS = ["WhalleyWilmott", "Naked+prev_hedge", "ParamFree+prev_hedge", "Naked+prev_hedge:two_hedges", "BlackScholes"]
+_PARAMFREE = []
+
+
+def _ParamFree():
+    if not _PARAMFREE:
+        import torch
+
+        class ParamFree(torch.nn.Module):
+            """a parameter-free strategy: a bounded function of the first feature and of the previous position"""
+            def forward(self, input):
+                return (input[..., :1] - input[..., -1:]).tanh()
+        _PARAMFREE.append(ParamFree)
+    return _PARAMFREE[0]()
+
+
+def reuse_make(torch, I, kind, prim, init):
+    """(hedger, derivative, hedging instruments or None)"""
+    from pfhedge.nn import Hedger, Naked, WhalleyWilmott, BlackScholes, ExpectedShortfall
+    kw = {"dtype": tdt(torch, init)}
+    if kind in ("WhalleyWilmott", "BlackScholes"):
+        stock = I.BrownianStock(cost=1e-3, **kw)
+    elif prim == "LocalVolatilityStock":
+        stock = I.LocalVolatilityStock(lambda t, s: torch.full_like(s, 0.2), cost=1e-4, **kw)
+    else:
+        stock = getattr(I, prim)(cost=1e-4, **kw)
+    deriv = I.EuropeanOption(stock, call=(kind != "ParamFree+prev_hedge"), maturity=3 / 250)
+    refs = None
+    if kind == "WhalleyWilmott":
+        m = WhalleyWilmott(deriv)
+        h = Hedger(m, m.inputs())
+    elif kind == "BlackScholes":
+        m = BlackScholes(deriv)
+        h = Hedger(m, m.inputs())
+    elif kind == "Naked+prev_hedge":
+        h = Hedger(Naked(), ["moneyness", "prev_hedge"], criterion=ExpectedShortfall(0.5))
+    elif kind == "ParamFree+prev_hedge":
+        h = Hedger(_ParamFree(), ["log_moneyness", "time_to_maturity", "prev_hedge"])
+    else:
+        lst = I.EuropeanOption(stock, strike=1.05, maturity=3 / 250)
+        lst.list(_listed_pricer, cost=1e-4)
+        refs = [stock, lst]
+        h = Hedger(Naked(2), ["moneyness", "prev_hedge"])
+    return h, deriv, refs
+
+
+def reuse_gen_steps(g, n):
+    """[cast or None, form, n_paths, ambient change or None, n_times of a compute_loss / price evaluation (0: none)] per step"""
+    steps = []
+    n_paths = g.choice([2, 3])
+    for _ in range(n):
+        cast = g.weighted([(None, 2), ("f32", 3), ("f64", 3), ("f16", 1), ("bf16", 1)])
+        if g.chance(0.15):
+            n_paths = g.choice([2, 3])          # (mostly the same number of paths from one use to the next)
+        steps.append([cast, g.choice(["to", "method", "prim_to", "kw"]), n_paths, g.choice([None, None, None, "f32", "f64"]), g.choice([0, 0, 0, 1, 2])])
+    return steps
+
+
+def run_reuse_case(torch, I, kind, prim, init, ambient, steps):
+    """-> (case, [(status, instrument dtype, {quantity: dtype})] per step); status 'ok' | 'backend' | ('err', kind)"""
+    case = {"hedger_reuse": kind, "primary": prim if kind not in ("WhalleyWilmott", "BlackScholes") else "BrownianStock", "init": init,
+            "ambient": ambient, "steps": steps}
+    torch.set_default_dtype(tdt(torch, ambient))
+    out = []
+    try:
+        h, d, refs = reuse_make(torch, I, kind, prim, init)
+        for cast, form, n_paths, amb, ens in steps:
+            try:
+                with torch.no_grad():
+                    if amb is not None:
+                        torch.set_default_dtype(tdt(torch, amb))
+                    if cast is not None:
+                        if form == "method":
+                            {"f16": d.half, "bf16": d.bfloat16, "f32": d.float, "f64": d.double}[cast]()
+                        elif form == "prim_to":
+                            d.ul().to(tdt(torch, cast))
+                        elif form == "kw":
+                            d.to(dtype=tdt(torch, cast))
+                        else:
+                            d.to(tdt(torch, cast))
+                    d.simulate(n_paths=n_paths)
+                    res = {"payoff": d.payoff().dtype}
+                    res["hedge"] = h.compute_hedge(d, hedge=refs).dtype
+                    res["hedger_input"] = h.inputs.of(d, h).get(0).dtype      # what the model is fed with (prev_hedge: the hedger's state)
+                    res["portfolio"] = h.compute_portfolio(d, hedge=refs).dtype
+                    pl_ = h.compute_pl(d, hedge=refs)
+                    res["pl"] = pl_.dtype
+                    res["loss_of_pl"] = h.criterion(pl_).dtype
+                    if ens:
+                        # (these simulate again themselves, with the same number of paths)
+                        res["compute_loss"] = h.compute_loss(d, hedge=refs, n_paths=n_paths, n_times=ens, enable_grad=False).dtype
+                        res["price"] = h.price(d, hedge=refs, n_paths=n_paths, n_times=ens).dtype
+                    res["payoff_after"] = d.payoff().dtype
+                want = d.ul().spot.dtype
+                declared = d.ul().dtype
+                out.append(("ok", short(torch, want), {k: short(torch, v) for k, v in res.items()},
+                            None if declared is None else short(torch, declared), short(torch, torch.get_default_dtype())))
+            except (RuntimeError, NotImplementedError) as e:
+                msg = str(e)
+                if isinstance(e, NotImplementedError) or "not implemented for" in msg or "not supported" in msg.lower() or "Half" in msg or "BFloat16" in msg:
+                    out.append(("backend", msg[:80], None, None, None))
+                else:
+                    out.append((("err", "runtime_error: " + msg[:160]), None, None, None, None))
+                break
+            except Exception as e:  # noqa
+                out.append((("err", canon_error(e)), None, None, None, None))
+                break
+    finally:
+        torch.set_default_dtype(torch.float32)
+    return case, out
+
+
+# ==================================================================================================
 # the SYSTEM model (lean/PfVerif/Model/InstrSys.lean, driver op "instr_sys"): primaries, derivatives over them, listed
 # derivatives, hedgers; after every operation the declared dtype, every buffer's dtype / shape / tensor identity and the dtype /
 # shape / error kind of payoff, features, listed price, hedge, portfolio, P&L, loss and price are compared exactly.
@@ -311,6 +435,7 @@ class ISysReal:
         for cls, ul, msteps in scen["derivs"]:
             self.derivs.append(getattr(I, cls)(self.prims[ul], maturity=msteps / 250))
         self.keep = []          # every tensor that ever was a buffer (keeps `id`s distinct)
+        self.hedgers = {}       # scen["reuse_hedgers"]: the Hedger objects of the history, one per configuration (see _hedger)
 
     # ---- observation
     def observe(self):
@@ -387,6 +512,18 @@ class ISysReal:
         return [self.prims[r[1]] if r[0] == "prim" else self.derivs[r[1]] for r in cfg["hedge"]], len(cfg["hedge"])
 
     def _hedger(self, cfg, H):
+        """the hedger of a query.  The model's answers depend on the instruments and the configuration only; with scen["reuse_hedgers"]
+        the real side keeps ONE Hedger object per configuration alive over the whole history (as one does with a fitted hedger), so the
+        state a hedger carries from one use to the next (`prev_output`, the bound features) sees every cast / re-simulation in between.
+        (A linear layer without an explicit dtype is created in the ambient default: the ambient of its creation is part of the key.)"""
+        if not self.scen.get("reuse_hedgers"):
+            return self._new_hedger(cfg, H)
+        key = json.dumps(cfg, sort_keys=True) + "|" + short(self.torch, self.torch.get_default_dtype())
+        if key not in self.hedgers:
+            self.hedgers[key] = self._new_hedger(cfg, H)
+        return self.hedgers[key]
+
+    def _new_hedger(self, cfg, H):
         from pfhedge.nn import Hedger, Naked
         torch = self.torch
         feats = [isys_feature(n) for n in cfg["feats"]]
@@ -498,6 +635,8 @@ def isys_compare(ctx, scen, real, mo, tag="instr_sys"):
         ctx.stats["instr_sys:disagreements"] += 1
         ctx.disagree(tag_, case_, impl_, model_)
     case = {k: scen[k] for k in ("ambient", "prims", "derivs")} | {"cmds": scen["cmds"], "forms": scen["forms"]}
+    if scen.get("reuse_hedgers"):
+        case["reuse_hedgers"] = True
     if "ok" not in mo["init"]:
         _dis(tag, case, "constructed", mo["init"])
         return 0
@@ -589,7 +728,8 @@ def _isys_cfg(g, scen, k, rich):
     return {"model": model, "feats": feats, "hedge": hedge}
 
 
-def _isys_queries(g, scen, n, rich=True):
+def _isys_queries(g, scen, n, rich=True, pins=None):
+    """`pins`: hedger configurations of the history that come back in several queries (with scen["reuse_hedgers"]: the same Hedger object)"""
     qs = []
     nd = len(scen["derivs"])
     for _ in range(n):
@@ -599,9 +739,25 @@ def _isys_queries(g, scen, n, rich=True):
             qs.append(["ask", [kind, k]])
         elif kind == "feature":
             qs.append(["ask", ["feature", k, g.choice(ISYS_FEATS)]])
+        elif pins and g.chance(0.6):
+            qs.append(["ask", [kind, k, g.choice(pins)]])
         else:
             qs.append(["ask", [kind, k, _isys_cfg(g, scen, k, rich)]])
     return qs
+
+
+def _isys_pins(g, scen):
+    """one or two hedger configurations that a history uses again and again; the first one is state-dependent (prev_hedge) with a model that
+    nobody casts (Naked, or a linear layer in the ambient default dtype)"""
+    pins = []
+    for i in range(g.choice([1, 2])):
+        cfg = _isys_cfg(g, scen, 0, True)
+        if i == 0:
+            if "prev_hedge" not in cfg["feats"]:
+                cfg["feats"] = cfg["feats"][:2] + ["prev_hedge"]
+            cfg["model"] = g.choice(["naked", "naked", ["linear", None]])
+        pins.append(cfg)
+    return pins
 
 
 def isys_gen_scenario(g, length, nq):
@@ -616,6 +772,10 @@ def isys_gen_scenario(g, length, nq):
     nd = g.choice([1, 2, 2, 3])
     derivs = [[g.choice(list(ISYS_DERIV)), g.randint(0, nstock - 1), g.choice([1, 2, 3, 3, 5])] for _ in range(nd)]
     scen = {"ambient": g.choice(["f32", "f32", "f64"]), "prims": prims, "derivs": derivs, "cmds": [], "forms": []}
+    pins = None
+    if g.chance(0.5):
+        scen["reuse_hedgers"] = True
+        pins = _isys_pins(g, scen)
 
     def add(c, form=None):
         scen["cmds"].append(c)
@@ -663,9 +823,9 @@ def isys_gen_scenario(g, length, nq):
             add(["default", g.choice(["f32", "f64"])])
         else:
             j = g.randint(0, nd - 1)
-            add(["run", j, _isys_cfg(g, scen, j, True), g.choice([1, 2, 3]), isys_steps(derivs[j][2] / 250), g.choice([1, 1, 2, 3])],
-                g.choice(["loss", "price"]))
-        for q in _isys_queries(g, scen, nq):
+            add(["run", j, g.choice(pins) if (pins and g.chance(0.5)) else _isys_cfg(g, scen, j, True), g.choice([1, 2, 3]),
+                 isys_steps(derivs[j][2] / 250), g.choice([1, 1, 2, 3])], g.choice(["loss", "price"]))
+        for q in _isys_queries(g, scen, nq, pins=pins):
             add(q)
     return scen
 
@@ -753,19 +913,30 @@ ISYS_EXH_END = [
 ]
 
 
-def isys_exhaustive(depth, letters):
+ISYS_PREV = {"model": "naked", "feats": ["moneyness", "prev_hedge"], "hedge": None}
+
+
+def isys_exhaustive(depth, letters, reuse=False, battery=True):
     """all sequences of `depth` operations over the given letters of ISYS_EXH_ALPHABET on: a Heston stock (dtype None / float64), a European option
-    (maturity 3/250) and a lookback option (maturity 2/250) on it; two cheap queries after every operation, a battery at the end"""
+    (maturity 3/250) and a lookback option (maturity 2/250) on it; two cheap queries after every operation, a battery at the end.
+    `reuse`: one state-dependent, parameter-free hedger (Naked on moneyness and prev_hedge) lives through the whole history and computes the
+    hedge of the European option after every operation"""
     scens = []
     for init in (None, "f64"):
         for seq in itertools.product([ISYS_EXH_ALPHABET[i] for i in letters], repeat=depth):
             scen = {"ambient": "f32", "prims": [["HestonStock", init]], "derivs": [["EuropeanOption", 0, 3], ["LookbackOption", 0, 2]],
                     "cmds": [], "forms": []}
+            if reuse:
+                scen["reuse_hedgers"] = True
             for c, form in seq:
                 scen["cmds"] += [c, ["ask", ["dtype", 1]], ["ask", ["payoff", 0]]]
                 scen["forms"] += [form, None, None]
-            scen["cmds"] += ISYS_EXH_END
-            scen["forms"] += [None] * 8 + ["loss", None]
+                if reuse:
+                    scen["cmds"].append(["ask", ["hedge", 0, ISYS_PREV]])
+                    scen["forms"].append(None)
+            if battery:
+                scen["cmds"] += ISYS_EXH_END
+                scen["forms"] += [None] * 8 + ["loss", None]
             scens.append(scen)
     return scens
 
@@ -919,13 +1090,60 @@ def check(ctx):
                 if any(v != mm["ok"]["result"] for v in extra["results"].values()):
                     ctx.disagree("dt_results", case | {"step": i}, extra["results"], mm["ok"]["result"])
                     break
+    # ---------------- one hedger object over a history of casts of its instruments (predicate only; the system model replays the
+    # same idea with scen["reuse_hedgers"] below)
+    reuse_cases = []
+    stocks = ["BrownianStock", "HestonStock", "MertonJumpStock", "KouJumpStock", "RoughBergomiStock", "LocalVolatilityStock"]
+    # exhaustive: all sequences of two (quick) / three (thorough) rounds of (cast, simulate, evaluate) over {no cast, float32, float64}, on
+    # instruments constructed without a dtype and in float64, every hedger: every pair (dtype of the previous use, dtype of this use)
+    rdepth = 2 if ctx.tier == "quick" else 3
+    for kind in REUSE_HEDGERS:
+        for init in (None, "f64"):
+            for seq in itertools.product([None, "f32", "f64"], repeat=rdepth):
+                form = g.choice(["to", "method", "prim_to", "kw"])
+                reuse_cases.append((kind, g.choice(stocks), init, g.choice(["f32", "f32", "f64"]),
+                                    [[c, form, 2, None, g.choice([0, 0, 1]) if i == rdepth - 1 else 0] for i, c in enumerate(seq)]))
+    for _ in range(15 if ctx.tier == "quick" else 400):
+        reuse_cases.append((g.choice(REUSE_HEDGERS), g.choice(stocks), g.choice([None, None, "f32", "f64", "f16"]), g.choice(["f32", "f32", "f64"]),
+                            reuse_gen_steps(g, g.randint(2, 5))))
+    for kind, prim, init, amb, rsteps in reuse_cases:
+        case, out = run_reuse_case(torch, I, kind, prim, init, amb, rsteps)
+        ctx.case(case, nontrivial=len(rsteps) >= 2, tag="hedger_reuse")
+        ctx.traces += 1
+        ctx.stats[f"hedger_reuse={kind}"] += 1
+        prev_dt = None
+        for i, (st, inst_dt, res, declared, amb_now) in enumerate(out):
+            c2 = case | {"step": i}
+            if st == "backend":
+                ctx.stats["backend_unsupported"] += 1
+                break
+            if st != "ok":
+                ctx.fail("a hedger that is used again after a cast / re-simulation of its instruments raised", c2, key=f"dtype:hedger-reuse:error:{kind}",
+                         detail=st[1])
+                break
+            if inst_dt != (declared or amb_now):
+                ctx.fail("simulate() did not produce its buffers in the declared (or default) dtype", c2, key="dtype:simulate",
+                         detail={"want": declared or amb_now, "spot": inst_dt})
+                break
+            ctx.stats["hedger_reuse:" + ("first_use" if prev_dt is None else "same_dtype" if prev_dt == inst_dt else
+                                         f"{prev_dt}->{inst_dt}")] += 1
+            prev_dt = inst_dt
+            wrong = {k: v for k, v in res.items() if v != inst_dt}
+            if wrong:
+                ctx.fail("the SAME hedger used again after its instruments were cast and re-simulated: hedge / hedger inputs / portfolio / P&L / "
+                         "loss / price are not in the instruments' dtype (state carried over from the previous use?)", c2,
+                         key=f"dtype:hedger-reuse:{kind}", detail={"instrument": inst_dt, "wrong": wrong, "results": res})
+                break
     # ---------------- the system model (Model/InstrSys.lean)
     sys_items = []                                  # (tag, scenario, real execution)
     t_sys = time.time()
     for case, obs0, steps, snap0, ops in sys_records:
         scen, real = isys_from_case(case, obs0, steps, snap0, ops)
         sys_items.append(("from_sequences", scen, real))
-    exh = isys_exhaustive(3, range(10))
+    # (quick: the long-lived hedger on the sub-alphabet {cast f64, cast f16, simulate, ambient default}; thorough: on all ten letters)
+    exh = isys_exhaustive(3, range(10), reuse=ctx.tier != "quick")
+    if ctx.tier == "quick":
+        exh += isys_exhaustive(3, [0, 1, 3, 8], reuse=True, battery=False)
     if ctx.tier != "quick":
         # depth 4 over: cast through either derivative, simulate through either, register_buffer, list, ambient default
         exh += isys_exhaustive(4, [0, 1, 3, 4, 5, 6, 8])
@@ -936,7 +1154,10 @@ def check(ctx):
             real = isys_run_real(torch, I, scen)
             if real[0] is None:
                 raise InternalError(f"system scenario could not be constructed: {scen['prims']}")
-            ctx.case({k: scen[k] for k in ("ambient", "prims", "derivs", "cmds", "forms")}, nontrivial=len(scen["cmds"]) >= 2, tag="instr_sys:" + tag)
+            ctx.case({k: scen[k] for k in ("ambient", "prims", "derivs", "cmds", "forms")} | {"reuse_hedgers": bool(scen.get("reuse_hedgers"))},
+                     nontrivial=len(scen["cmds"]) >= 2, tag="instr_sys:" + tag)
+            if scen.get("reuse_hedgers"):
+                ctx.stats["instr_sys:histories_with_reused_hedgers"] += 1
             ctx.traces += 1
             sys_items.append((tag, scen, real))
     t_real = time.time() - t_sys
@@ -958,4 +1179,6 @@ def check(ctx):
              "exhaustive sequences of depth <=3 (quick) / 4 (thorough) over {to f64, to f16, to(device), simulate, register int buffer, to(instrument), "
              "default f64} x init in {None, f64}; random sequences (length <= 12 / 40) over all cast forms on all 8 primaries, directly and through a "
              "derivative (half of them with a listed option on the instrument whose price is read after every step), casts to complex dtypes in all "
-             "to() forms and the constructor, loss/price with n_times in {1,2,3} at the end, both global defaults; non-trivial = >= 2 operations; distinct = sha1 of canonical case")
+             "to() forms and the constructor, loss/price with n_times in {1,2,3} at the end, both global defaults; one parameter-free hedger object reused over "
+             "histories of casts / re-simulations of its instruments (5 hedgers, exhaustive over {none, f32, f64} to depth 2 quick / 3 thorough x init in {None, f64}, "
+             "plus random histories), also as long-lived hedgers on the real side of the system model; non-trivial = >= 2 operations; distinct = sha1 of canonical case")
